@@ -13,7 +13,9 @@ with result sizes count-1, count, count+1, count+4, path, queries, content forma
 all operations with value lengths around the 256-byte inline buffer and paths with empty and 255/256-byte
 segments; targeted path edits on objects that already carry a path when the buffer must grow or the path is refused;
 resets of an object to (a subset / permutation of) its own options after setters called in non-ascending number order
-(`resetself`: the sources are views into the object's own value buffer).
+(`resetself`: the sources are views into the object's own value buffer); received messages (`recv`: a datagram
+unmarshalled into a message from the pool — values are sub-slices of the unmarshal buffer — and then edited past the
+first growth of the value buffer; Model/PoolOptionsReceive.lean, Props/C15Receive.lean).
 """
 import concurrent.futures as cf
 import glob
@@ -25,10 +27,10 @@ import random
 
 from . import common
 
-MODULES = ["CoapVerif.Props.C15", "CoapVerif.Findings.C15"]
+MODULES = ["CoapVerif.Props.C15", "CoapVerif.Props.C15Receive", "CoapVerif.Findings.C15"]
 GENERATED = ["OptionList.lean", "OptionListShape.lean"]
 EDITS = {"set", "add", "setstr", "addstr", "setu32", "addu32", "remove", "setpath", "setloc", "addquery", "resetto",
-         "resetself", "resetslice", "setresp", "recycle", "clone", "swap", "reset"}
+         "resetself", "resetslice", "setresp", "recycle", "recv", "clone", "swap", "reset"}
 IDS_SMALL = [8, 11, 15]
 IDS_WIDE = [0, 1, 3, 4, 6, 8, 11, 12, 14, 15, 17, 20, 23, 35, 60, 258, 65535]
 
@@ -79,7 +81,7 @@ class Ref:
                     self.ids = [i for i in self.ids if i != oid] + [oid] * len(segs)
         elif op == "addquery":
             self.ids.append(15)
-        elif op == "resetto":
+        elif op in ("resetto", "recv"):
             self.ids = [int(x.split(":")[0]) for x in f[2:]]
         elif op == "resetself":
             if self.ids:
@@ -427,6 +429,94 @@ def size_boundary_seqs(rng, reps):
     return seqs
 
 
+# options a datagram can legitimately carry: number -> (min, max) length of the value (RFC 7252 table 4, RFC 7641, RFC 7959,
+# RFC 7967); numbers the registry does not know (2049, 65000) carry anything
+WIRE_LEN = {1: (0, 8), 3: (1, 255), 4: (1, 8), 6: (0, 3), 8: (0, 255), 11: (0, 255), 12: (0, 2), 14: (0, 4), 15: (0, 255),
+            17: (0, 2), 20: (0, 255), 35: (1, 1034), 60: (0, 4), 258: (0, 1), 2049: (0, 600), 65000: (0, 300)}
+
+
+def wire_items(rng, n, ids=None):
+    """n options in wire order (ascending numbers, repeats allowed) with lengths legal for their numbers."""
+    ids = ids or sorted(WIRE_LEN)
+    chosen = sorted(rng.choice(ids) for _ in range(n))
+    out = []
+    for k, i in enumerate(chosen):
+        lo, hi = WIRE_LEN[i]
+        ln = rng.choice([lo, lo, 1, 1, 2, 3, 5, 8, 12, hi if hi <= 255 else 300, hi])
+        ln = max(lo, min(hi, ln))
+        out.append((i, bytes([33 + (k * 7) % 90]) * ln))
+    return out
+
+
+def fmt_items(its):
+    return " ".join("%d:%s" % (i, hx(v)) for i, v in its)
+
+
+def received_seqs(rng, count):
+    """A message that was RECEIVED (a datagram unmarshalled into a message from the pool: its option values are sub-slices
+    of the message's unmarshal buffer) and is then edited — a handler / proxy that annotates a request before passing it on.
+    Part 1, deterministic: for three datagrams x the number of value-buffer bytes already used (0..256) x the size of the
+    value that makes the 256-byte value buffer grow for the first time (1 byte .. 1034 bytes: growths that stay below
+    2x/3x the inline size as well as large ones) x the editing entrance; then a second growth, a clone and a look back at
+    the source.  Part 2, random: datagrams of 0..6 (sometimes 16/17/33: the decoder's option array restarts) options, random
+    edits and queries, sometimes a second datagram into the same message."""
+    seqs = []
+    demo = [(11, b"sensors"), (11, b"temperature"), (15, b"unit=celsius")]
+    one = [(11, b"s" * 255)]
+    many = wire_items(rng, 17, [4, 6, 8, 11, 11, 12, 15, 15, 17, 20, 60])
+    for wire in (demo, one, many):
+        n = len(wire)
+        for pre in (0, 3, 200, 203, 255, 256):
+            for need in (1, 53, 54, 100, 255, 256, 257, 300, 500, 511, 512, 513, 768, 1034):
+                for how in ("addstr", "add", "setstr35", "setpath", "resetself"):
+                    seq = ["new pool %d" % rng.choice([16, 16, 0, 1, 40]), "recv %d %s" % (n, fmt_items(wire))]
+                    if pre:
+                        seq.append("add 2049 %s" % hx(b"p" * pre))
+                    fill = bytes([65 + (pre + need) % 26])
+                    if how == "addstr":
+                        seq += ["addstr 15 %s" % hx(fill * min(need, 255))] + (["addstr 20 %s" % hx(fill * (need - 255))] if need > 255 else [])
+                    elif how == "add":
+                        seq.append("add 35 %s" % hx(fill * need))
+                    elif how == "setstr35":
+                        seq.append("setstr 35 %s" % hx(fill * need))
+                    elif how == "setpath":
+                        segs, left = [], need
+                        while left > 0:
+                            segs.append(fill * min(left, 255))
+                            left -= 255
+                        seq.append("setpath %s" % hx(b"/" + b"/".join(segs)))
+                    else:
+                        # the message is reset to its own options (received values copied into the value buffer), then grows
+                        seq += ["resetself " + " ".join(str(i) for i in range(n + (1 if pre else 0))), "add 35 %s" % hx(fill * need)]
+                    seq += ["path", "queries", "getstrs 11 %d" % (n + 3), "getbytes 35",
+                            "addquery %s" % hx(b"z" * 250), "addquery %s" % hx(b"w" * 120), "path", "queries",
+                            "clone", "path", "queries", "swap", "path", "queries"]
+                    seqs.append(seq)
+    for _ in range(count):
+        ids = IDS_WIDE if rng.random() < 0.4 else [8, 11, 12, 15, 35]
+        seq = ["new pool %d" % rng.choice([0, 1, 2, 4, 8, 16, 16, 16, 17, 40])]
+        ref = Ref()
+        for _ in range(rng.choice([0, 0, 1, 3])):          # the message had a life before it was taken for receiving
+            e = rand_edit(rng, ref, True, ids)
+            ref.apply(e)
+            seq.append(e)
+        rounds = rng.choice([1, 1, 1, 2, 3])
+        for _ in range(rounds):
+            n = rng.choice([0, 1, 2, 3, 3, 4, 6, 16, 17, 33])
+            e = ("recv %d %s" % (n, fmt_items(wire_items(rng, n)))).rstrip()
+            ref.apply(e)
+            seq.append(e)
+            for _ in range(rng.randrange(2, 12)):
+                e = rand_edit(rng, ref, True, ids)
+                ref.apply(e)
+                seq.append(e)
+                for _ in range(rng.choice([0, 1, 1, 2])):
+                    seq.append(rand_query(rng, ref, ids))
+        seq += battery(sorted(set(ref.ids))[:4] or [11], ref.counts())
+        seqs.append(seq)
+    return seqs
+
+
 def glue_seqs(rng, count):
     """The library's own users of the option list: ResponseWriter.SetResponse sequences on one writer (a later SetResponse
     without options must clear what an earlier one / Message() edits left), and an observation that keeps the options of
@@ -618,7 +708,7 @@ def nontrivial(seq, impl):
             ids.add("8")
         elif f[0] == "addquery":
             ids.add("15")
-        elif f[0] == "resetto":
+        elif f[0] in ("resetto", "recv"):
             ids.update(x.split(":")[0] for x in f[2:])
         elif f[0] in ("resetself", "resetslice", "recycle", "build", "notify"):
             pass
@@ -660,6 +750,8 @@ def explore(ctx, art):
         yield "size-boundary", batches(size_boundary_seqs(rng, 12 if thorough else 2))
         yield "glue", batches(glue_seqs(rng, 6000 if thorough else 400))
         yield "random", batches(random_seqs(rng, 30000 if thorough else 1200, 48 if thorough else 28))
+        # own stream: the sequences of the generators above stay what they were for a given seed
+        yield "received", batches(received_seqs(random.Random(ctx.seed * 7919 + 15), 6000 if thorough else 600))
     distinct = set()
     totals = {}
     reported = {}
@@ -726,7 +818,13 @@ def explore(ctx, art):
         "caller-owned option slices (spare capacity, a sibling slice over the same array, Observe among the options); size-boundary = deterministic sweep over list sizes 11,12,13,14,15,16,17,20,24,32,33,40 (algorithm-switch thresholds: 12/13 of Go's "
         "pdqsort, capacity 16, binary-search depths): reset-to / clone / reset-to-own-permutation with unordered inputs "
         "with runs of repeated numbers, Add/Set/Remove/SetPath/AddQuery on lists of those sizes, and stored-byte totals "
-        "254..258, 511..513 around the 256-byte value buffer. evaluations = operation lines executed on the real code and judged. distinct_nontrivial = number of "
+        "254..258, 511..513 around the 256-byte value buffer; received = a datagram unmarshalled into a message from the pool (operation recv: "
+        "option values are sub-slices of the message's unmarshal buffer), then edited: deterministic sweep datagram (3 options / one "
+        "255-byte segment / 17 options) x value-buffer bytes already used (0,3,200,203,255,256) x size of the value that makes the "
+        "256-byte value buffer grow for the first time (1,53,54,100,255,256,257,300,500,511,512,513,768,1034) x entrance "
+        "(AddOptionString, AddOptionBytes, SetOptionString Proxy-Uri, SetPath, reset-to-own-options then add), followed by a second "
+        "growth, clone and a look back at the source; plus random datagrams (0..6, 16, 17, 33 options of legal lengths) with random "
+        "edits, several datagrams into one message. evaluations = operation lines executed on the real code and judged. distinct_nontrivial = number of "
         "distinct sequences (SHA-1 of the text) that have >= 3 editing operations on >= 2 option numbers, or in which a value "
         "forced the pooled message's value buffer to grow (detected from the reported unused-buffer length)." % (4 if thorough else 3))
     _ = growth
